@@ -473,6 +473,8 @@ func allChecks() []CheckSpec {
 					MustReach: []string{"not-handled", "request-unauthenticated", "request-authenticated", "response-bad-integrity", "response-unknown-source", "response-authenticated", "response-changed-pair-state", "indication", "indication-unknown-source", "done"}},
 				{Fn: "verifC02AfterRestart", Lemma: "real Restart, then a request signed for the old generation or a response to an old transaction under the old remote password: nothing changes",
 					Bounds: "1 local + 1 remote, both roles, both message kinds", MustReach: []string{"done"}},
+				{Fn: "verifC02TrailingAttributes", Lemma: "attributes that follow MESSAGE-INTEGRITY are not authenticated (anyone on the path can append them to a genuine request; RFC 5389 §15.4: MUST be ignored, FINGERPRINT excepted): a correctly signed plain Binding request with USE-CANDIDATE, a nomination value and/or a role attribute (the peer's or the receiver's own) appended behind MESSAGE-INTEGRITY is handled exactly like the plain check: answered, but no role switch, no selection, no nomination recorded, stored nomination value untouched",
+					Bounds: "1 local + 1 remote, both roles, symbolic pair state/flags/selection, every combination of the three appended attributes, 24-bit value, 64-bit tie-breakers", MustReach: []string{"appended", "nothing-appended", "done"}},
 			},
 			Assumptions: append([]string{
 				"MESSAGE-INTEGRITY is a contract: the tag is an injective function of the key (valid under k1 and k2 implies k1 = k2); HMAC-SHA1 itself is not encoded",
